@@ -497,6 +497,6 @@ pub fn run(args: &Args) {
     );
     report.assumption("the position of a reference is tracked through the entrypoint's operation text; where it cannot be (below a client pointer, unresolvable variables) only the index, the operation name and the wrapper are judged");
     let ex = ArtExclusions { no_persisted: true, refetch_heavy: true, ..driver::negative_int_exclusion() };
-    driver::run_single(args, &report, 6000, 180_000, &ex, &oracle);
+    driver::run_single(args, &report, 30_000, 300_000, &ex, &oracle);
     report.finish();
 }
